@@ -22,7 +22,7 @@ TABLE_OPS_FOR = {
     "C05": ["set_move", "set_move_moving", "rem", "clear", "del", "rehash", "assign"],
     "C11": ["iter"],
     "C12": ["lookup", "rem"],
-    "C19": ["lookup", "iter"],
+    "C19": ["lookup", "lookup_own", "iter"],
     "C01": ["mark"],
     "C14": ["show"],
     "C06": ["del", "clear"],
@@ -65,6 +65,8 @@ def jobs(tier):
         add("lookup", "h_lookup", ns, ["Table_Get", "Table_Mem", "Table_Len", "Table_Key_Type", "Table_Val_Type"], unwind=ns + 2, safety=(ns != 0),
             extra=([] if ns else ["--no-pointer-check", "--no-pointer-primitive-check"]))
         add("iter", "h_iter", ns, ["Table_Iter_Init", "Table_Iter_Next", "Table_Iter_Last", "Table_Iter_Prev"], defs=["GUARD"], unwind=ns + 3)
+    for ns in sizes[1:]:
+        add("lookup_own", "h_lookup_own", ns, ["Table_Get"], unwind=ns + 2)
     add("emptied", "h_emptied", 0, ["Table_Set", "Table_Rehash", "Table_Set_Move", "Table_Mem", "Table_Iter_Init"], rc=["Table_Resize_More:cv_resize_more_stub"], unwind=4)
     add("set_compose", "h_set_compose", 3, ["Table_Set"], rc=["Table_Set_Move:cv_set_move_stub", "Table_Resize_More:cv_resize_more_stub"], unwind=5)
     for (o, n) in ([(3, 5), (3, 1), (5, 11), (5, 1), (1, 5)] if tier == "thorough" else [(3, 5), (3, 1), (1, 5)]):
